@@ -8,7 +8,7 @@ def tasks(tier):
     return contract_tasks("contracts.scheduler", "C17", tier=tier) + contract_tasks("contracts.run_prelude", "C17", tier=tier) \
         + lemma_tasks("contracts.run_prelude", "C17") \
         + contract_tasks("contracts.sim_process", "C17", tier=tier, names=["SimProcess"]) \
-        + contract_tasks("contracts.tiered_time", "C08")
+        + contract_tasks("contracts.tiered_time", "C08") + other_tasks("contracts.rt_bounded", "C17", "bounded")
 
 
 TRUSTED_BASE = TRUSTED_CORE
